@@ -235,6 +235,21 @@ CONTRACTS += [
              native=lambda i: eval_native('2.0', 'count($s)', s=i['S']), samples=lambda rng: ({'S': s} for s in ITEMS)),
 ]
 
+CONTRACTS += [
+    Contract('empty', 'C08', token_method('2.0', 'empty', 'select'), seq_case('2.0', 'empty', 1),
+             post=[('true_iff_no_item', "returned and len(out) == 1 and out[0] == (len(S) == 0)")],
+             generator=K_BOOL, native=lambda i: select_native('2.0', 'empty($s)', s=i['S']), samples=lambda rng: ({'S': s} for s in ITEMS)),
+    Contract('exists', 'C08', token_method('2.0', 'exists', 'select'), seq_case('2.0', 'exists', 1),
+             post=[('true_iff_some_item', "returned and len(out) == 1 and out[0] == (len(S) > 0)")],
+             generator=K_BOOL, native=lambda i: select_native('2.0', 'exists($s)', s=i['S']), samples=lambda rng: ({'S': s} for s in ITEMS)),
+]
+
+CONTRACTS.append(Contract(
+    'head', 'C08', token_method('3.0', 'head', 'evaluate'), seq_case('3.0', 'head', 1, method='evaluate'),
+    post=[('first_item_or_empty', "returned and ((len(S) == 0 and is_empty_list(result)) or (len(S) > 0 and result == S[0]))")],
+    loops={0: LoopSpec(["_i0 == 0"])},
+    native=lambda i: eval_native('3.0', 'head($s)', s=i['S']), samples=lambda rng: ({'S': s} for s in ITEMS)))
+
 for sym, code, ok, bad in (('zero-or-one', 'FORG0003', "len(S) <= 1", "len(S) > 1"),
                            ('one-or-more', 'FORG0004', "len(S) >= 1", "len(S) == 0"),
                            ('exactly-one', 'FORG0005', "len(S) == 1", "len(S) != 1")):
